@@ -12,9 +12,9 @@ namespace rc = romea::core;
 
 namespace {
 
-enum OpKind {CONSTRUCT = 0, CONSTRUCT_ANCHOR, SET_ANCHOR, RESET, TOENU_GEO, TOENU_WGS84, TOENU_ECEF, TOECEF, TOWGS84, OBSERVE};
+enum OpKind {CONSTRUCT = 0, CONSTRUCT_ANCHOR, SET_ANCHOR, RESET, TOENU_GEO, TOENU_WGS84, TOENU_ECEF, TOECEF, TOWGS84, OBSERVE, SET_OWN_ANCHOR};
 const char * kOpName[] = {"ENUConverter()", "ENUConverter(anchor)", "setAnchor", "reset", "toENU(geodetic)", "toENU(WGS84)", "toENU(ecef)",
-  "toECEF(enu)", "toWGS84(enu)", "isAnchored/getEnuToEcefTransform"};
+  "toECEF(enu)", "toWGS84(enu)", "isAnchored/getEnuToEcefTransform", "setAnchor(getAnchor())"};
 
 struct Op
 {
@@ -186,7 +186,7 @@ Outcome runHistory(const Plan & p, Ctx & c)
     ++no; ++c.steps;
     Op op = raw;
     // ops whose precondition (anchored) is false are interpreted as a plain observation
-    if (!anchored && (op.kind == TOENU_ECEF || op.kind == TOECEF || op.kind == TOWGS84)) {op.kind = OBSERVE; SIM_COUNT("op.skipped_needs_anchor");}
+    if (!anchored && (op.kind == TOENU_ECEF || op.kind == TOECEF || op.kind == TOWGS84 || op.kind == SET_OWN_ANCHOR)) {op.kind = OBSERVE; SIM_COUNT("op.skipped_needs_anchor");}
     Geo ga {op.lat, op.lon, op.alt};
     switch (op.kind) {
       case CONSTRUCT: conv.reset(new rc::ENUConverter()); anchored = false; everReset = false; reanchored = false; SIM_COUNT("op.construct"); break;
@@ -195,6 +195,9 @@ Outcome runHistory(const Plan & p, Ctx & c)
         if (anchored) {SIM_PROBE("set_anchor_replaces_existing_frame");}
         conv->setAnchor(geoOf(ga)); if (everReset) {reanchored = true;}
         anchored = true; anchor = ga; SIM_COUNT("op.setAnchor"); break;
+      case SET_OWN_ANCHOR:
+        // the argument aliases the converter's own stored anchor: the frame must simply stay what it is
+        conv->setAnchor(conv->getAnchor()); SIM_PROBE("set_anchor_with_own_anchor_reference"); break;
       case RESET:
         if (anchored) {SIM_COUNT("fault.reset_of_anchored_converter.fired");} else {SIM_PROBE("reset_of_unanchored_converter");}
         conv->reset(); anchored = false; everReset = true; break;
@@ -316,7 +319,7 @@ struct PropC02
     for (int k = 0; k < n; ++k) {
       Op o; drawAnchor(r, lonStyle, o); drawLocal(r, o);
       if (r.chance(pReset)) {o.kind = RESET;} else {
-        static const int kinds[] = {CONSTRUCT, CONSTRUCT_ANCHOR, SET_ANCHOR, SET_ANCHOR, TOENU_GEO, TOENU_GEO, TOENU_WGS84, TOENU_WGS84, TOENU_ECEF, TOECEF, TOWGS84, TOWGS84, OBSERVE};
+        static const int kinds[] = {CONSTRUCT, CONSTRUCT_ANCHOR, SET_ANCHOR, SET_ANCHOR, TOENU_GEO, TOENU_GEO, TOENU_WGS84, TOENU_WGS84, TOENU_ECEF, TOECEF, TOWGS84, TOWGS84, OBSERVE, SET_OWN_ANCHOR};
         o.kind = r.pick(kinds);
       }
       p.ops.push_back(o);
@@ -397,7 +400,7 @@ struct PropC02
   std::string signature(const Plan & p, const Outcome & o) const
   {
     std::string s = o.cls + "|";
-    for (auto & op : p.ops) {s += "CASRgwetlo"[op.kind];}
+    for (auto & op : p.ops) {s += "CASRgwetloa"[op.kind];}
     return s;
   }
   std::vector<uint64_t> sampleIndexes() const
@@ -410,7 +413,7 @@ struct PropC02
   {
     return {"set_anchor_replaces_existing_frame", "reset_of_unanchored_converter", "auto_anchor_after_reset", "auto_anchor_of_fresh_converter",
       "auto_anchor_wgs84_after_reset", "frame_checked_after_reset_and_reanchor", "anchor_within_0.1rad_of_antimeridian", "anchor_beyond_80deg_latitude",
-      "local_point_beyond_90km"};
+      "local_point_beyond_90km", "set_anchor_with_own_anchor_reference"};
   }
   Json describe() const
   {
